@@ -71,6 +71,14 @@ def handle(msg):
         except Exception:
             pass
     try:
+        import mido
+        if not getattr(msg, 'is_meta', False):
+            mido.format_as_string(msg, include_time=False)
+            mido.format_as_string(msg, include_time=True)
+            n += 1
+    except Exception:
+        pass
+    try:
         d = msg.dict()
         d['time'] = 'poked'
         d.pop('type', None)
